@@ -14,7 +14,7 @@ from ..model import src
 from ..report import Report, key_of
 from ..terms import dag_nodes, pretty
 from ..types import Ctx
-from .common import TRUSTED_BASE, cfg_nodes_for, effects_of, inl, subst_single_assign, where
+from .common import TRUSTED_BASE, cfg_nodes_for, effects_of, inl, resolve_expr, subst_single_assign, where
 
 
 def _self_calls(A, f, name):
@@ -37,7 +37,7 @@ def run(A, R: Report, thorough: bool):
     comp_param = [p for p in goc.params if p not in ('self', 'key', 'force')]
     R.require(comp_param, 'anchor: get_or_compute has no computer parameter')
     cp = comp_param[0]
-    comps = [n for n in A.typer.own_nodes(goc) if isinstance(n, ast.Call) and isinstance(n.func, ast.Name) and n.func.id == cp]
+    comps = [n for n, o, sites in A.nodes_with_sites(goc) if isinstance(n, ast.Call) and isinstance(n.func, ast.Name) and src(resolve_expr(A, goc, n.func, o, sites)) == cp]
     saves = _self_calls(A, goc, 'save_value')
     R.require(comps and saves, 'anchor: computer() / save_value calls not found in get_or_compute')
     comp_nodes = [n.id for c in comps for n in cfg_nodes_for(cfg, c)]
@@ -48,7 +48,7 @@ def run(A, R: Report, thorough: bool):
             after_fail = cfg.find_path(exc, [sn.id]) if exc else None
             # the saved value is what the computer returned
             val_ok = len(s.args) >= 3 and isinstance(s.args[2], ast.Name) and any(
-                isinstance(a, ast.Assign) and any(src(t) == s.args[2].id for t in a.targets) and a.value in comps for a in A.typer.own_nodes(goc) if isinstance(a, ast.Assign))
+                isinstance(a, ast.Assign) and any(src(t) == s.args[2].id for t in a.targets) and a.value in comps for a in inl(A, goc) if isinstance(a, ast.Assign))
             R.check(dom and after_fail is None and val_ok, 'R14.1', 'FileCache.get_or_compute: save_value', key_of('compute-save', dom, after_fail is None, val_ok),
                     'save follows a completed compute and stores its result', f'save_value not strictly after a successful computer() (dominated={dom}, reachable-after-failure={after_fail is not None}, stores-computed-value={val_ok})',
                     witness=cfg.describe_path(after_fail) if after_fail else None, where=where(goc, s))
@@ -64,7 +64,7 @@ def run(A, R: Report, thorough: bool):
         evs = E.collect(ctx, kinds=FS_MUTATING)
         save_nodes = set(id(s) for s in saves)
         fpt = A.sym.func_term(ci.lookup('filepath'), ('inst', ci))
-        bad = [e for e in evs if id(e.root_node) not in save_nodes and e.target is not None and (same_path(e.target, fpt) or (e.kind == 'FS_RENAME' and e.source is not None and same_path(e.source, fpt)))]
+        bad = [e for e in evs if id(e.root_node) not in save_nodes and not any(str(c_).split('.')[-1].startswith('save_value') for c_ in e.chain) and e.target is not None and (same_path(e.target, fpt) or (e.kind == 'FS_RENAME' and e.source is not None and same_path(e.source, fpt)))]
         R.check(not bad, 'R14.1b', f'{ci.short}.get_or_compute', key_of('entry-touched', ci.short, [e.kind for e in bad]), 'the entry is only replaced by save_value',
                 'the stored entry is deleted / rewritten outside save_value: when computer() raises (e.g. on a forced recompute) the previously stored value is lost', witness=[e.describe()[:200] for e in bad], where=where(goc))
 
